@@ -1,6 +1,7 @@
 import SeqVerif.Model.CacheRefine
 import SeqVerif.Model.CacheUniq
 import SeqVerif.Model.CacheOld
+import SeqVerif.Model.Budget
 import SeqVerif.Extracted.C18
 /-!
 # C18 - the block cache is coherent, accounted and bounded
@@ -349,6 +350,42 @@ theorem c18_released_set_leaves (cfg : Cfg) (hes : 0 < cfg.entrySize) {s s1 s2 :
         rw [hec, hrc] at this; cases this
   · exact absurd h2 (by simp)
 
+/-! ## support code: the cache budget (`FillConfigWithDefault` + `createCleaners`), arithmetic on naturals -/
+
+/-- Full statement wanted: for EVERY configuration `FillConfigWithDefault` accepts, the seven limits are positive and
+sum to at most `CacheSize`.  It is false for the code as it is (`c18_budget_split_counterexample`); proved is the part
+with the extra hypothesis that the sort cache leaves the 10% reserve alone (`10 * sort ≤ 9 * C`). -/
+theorem c18_budget_split_partial (C F S : Nat) (_hacc : SV.Budget.accepted C S)
+    (hres : 10 * SV.Budget.sortSize C F S ≤ 9 * C) :
+    (SV.Budget.limits C (SV.Budget.sortSize C F S)).sum + SV.Budget.sortSize C F S ≤ C ∧
+      (10 * SV.Budget.sortSize C F S + 334 ≤ 9 * C →
+        ∀ w ∈ SV.Budget.weights, 0 < SV.Budget.limitOf C (SV.Budget.sortSize C F S) w) := by
+  refine ⟨SV.Budget.sum_limits_le _ _ hres, fun h w hw => SV.Budget.limit_pos _ _ w ?_ h⟩
+  simp only [SV.Budget.weights, List.mem_cons, List.not_mem_nil, or_false] at hw
+  omega
+
+/-- accepted configurations whose remainder `0.9*CacheSize - SortCacheSize` is negative (the six weighted cleaners then
+get `uint64(negative float)`): the default path with 8 fraction sizes between 90% and 100% of the cache (here the
+default 128 MiB fractions and `--cache-size=1100MiB`), and an explicit sort-cache size in that range. -/
+theorem c18_budget_split_counterexample :
+    SV.Budget.accepted (1100 * 2^20) 0 ∧ SV.Budget.sortSize (1100 * 2^20) (128 * 2^20) 0 = 1024 * 2^20 ∧
+      SV.Budget.negative (1100 * 2^20) (SV.Budget.sortSize (1100 * 2^20) (128 * 2^20) 0) = true ∧
+    SV.Budget.accepted 1000 950 ∧ SV.Budget.negative 1000 (SV.Budget.sortSize 1000 0 950) = true := by decide
+
+/-- with the repair proposed in /verif/fixes/C18-cache-budget.patch (default and explicit value capped at 80% of the
+cache) the full statement holds for every accepted configuration -/
+theorem c18_budget_split_capped (C F S : Nat) (hacc : SV.Budget.acceptedCapped C S) :
+    (SV.Budget.limits C (SV.Budget.sortSizeCapped C F S)).sum + SV.Budget.sortSizeCapped C F S ≤ C ∧
+      (334 ≤ C → ∀ w ∈ SV.Budget.weights, 0 < SV.Budget.limitOf C (SV.Budget.sortSizeCapped C F S) w) := by
+  have hs : SV.Budget.sortSizeCapped C F S ≤ C * 8 / 10 := by
+    unfold SV.Budget.sortSizeCapped SV.Budget.acceptedCapped at *
+    split
+    · exact Nat.min_le_right _ _
+    · exact hacc
+  refine ⟨SV.Budget.sum_limits_le _ _ (by omega), fun hC w hw => SV.Budget.limit_pos _ _ w ?_ (by omega)⟩
+  simp only [SV.Budget.weights, List.mem_cons, List.not_mem_nil, or_false] at hw
+  omega
+
 /-! ### historical witnesses: the accounting clause before /repo commit b331fc5
 
 With the three critical sections as they were (`SV.Cache.stepOld`, Model/CacheOld.lean) the clause failed at fully
@@ -503,6 +540,36 @@ so a field added later must be released too), and nothing else -/
 theorem c18_x_index_cache_release_all :
     indexCacheFields ≠ [] ∧ indexCacheFields.all (· ∈ indexCacheReleased) = true ∧
       indexCacheReleased.all (· ∈ indexCacheFields) = true ∧ indexCacheReleaseConds = [] := by decide
+
+/-- the loader of the doc-block cache hands out its own buffer: the only non-nil result of `ReadDocBlockPayload` is
+`dst`, which comes from `DecompressTo(make([]byte, RawLen))`; the pooled read buffer's `Payload()` is never returned;
+`DecompressTo` copies in the uncompressed case.  (`c18_value_of_key` treats a produced value as immutable.) -/
+theorem c18_x_loader_fresh_buffer :
+    loaderReturns = ["return nil, 0, err", "return nil, uint64(n), err", "return dst, uint64(n), err"] ∧
+    loaderDst = ["dst, err := docBlock.DecompressTo(make([]byte, docBlock.RawLen()))"] ∧ loaderPayloadCalls = 0 ∧
+    decompressToNoCodec = ["if b.Codec() == CodecNo", "dst = util.EnsureSliceSize(dst, len(payload))",
+      "copy(dst, payload)", "return dst, nil"] := by decide
+
+/-- the cache budget as modelled by `SV.Budget`: weights and order of the layers, the 0.9 / 8 / 0.8 constants, and the
+sort-cache rule of `FillConfigWithDefault` in one of its two known shapes - `sortCacheCapped` says which one the
+source has, the driver's `split` command uses that rule (`SV.Budget.sortSizeOf`); the full theorem
+`c18_budget_split_capped` applies when it is `true`, only `c18_budget_split_partial` when it is `false` -/
+theorem c18_x_budget :
+    layerWeights = ["weight=3", "weight=8", "weight=8", "weight=36", "weight=37", "weight=8", "sizeLimit=sortCacheSize"] ∧
+    createCleanersArith = ["s := float64(totalSize) * 0.9", "s -= float64(cfg[i].sizeLimit)",
+      "totalWeights += int(cfg[i].weight)", "sizeLimit = uint64(s * float64(cfgItem.weight) / float64(totalWeights))"] ∧
+    ((sortCacheCapped = false ∧
+        sortCacheDefault = ["if config.SortCacheSize == 0", "const SdocsCacheSizeMultiplier = 8",
+          "const SdocsCacheSizeMaxRatio = 0.8", "config.SortCacheSize = config.FracSize * SdocsCacheSizeMultiplier",
+          "if config.SortCacheSize > config.CacheSize", "config.SortCacheSize = uint64(float64(config.CacheSize) * 0.8)",
+          "if config.SortCacheSize > config.CacheSize", "Fatal"]) ∨
+      (sortCacheCapped = true ∧
+        sortCacheDefault = ["const SdocsCacheSizeMultiplier = 8", "const SdocsCacheSizeMaxRatio = 0.8",
+          "maxSortCacheSize := uint64(float64(config.CacheSize) * SdocsCacheSizeMaxRatio)",
+          "if config.SortCacheSize == 0",
+          "config.SortCacheSize = min(config.FracSize*SdocsCacheSizeMultiplier, maxSortCacheSize)",
+          "if config.SortCacheSize > maxSortCacheSize", "Fatal"])) ∧
+    SV.Budget.weights.sum = SV.Budget.totalWeights := by decide
 
 /-- `getOrCreate`, `Get`, `GetWithError` as modelled -/
 theorem c18_x_lookup_sections :
